@@ -377,7 +377,54 @@ def c06g(ctx):
         ctx.fail(o, "(program)", "anchor missing: the push of a fresh mark in check_cyclic_internal")
 
 
+def c06h(ctx):
+    """A nested query made on behalf of an in-flight query can come back with CyclicError (the callee waits, directly or not,
+    for this very query).  During REPAIR that answer must not be dropped: the callee is still in flight, what is stored for
+    it is its previous value, and comparing the observation with that verifies the caller clean although it now lies on a
+    ring.  The cycle is only resolved by running the caller's executor (which unwinds with the cycle default)."""
+    prog = ctx.prog
+    o = ctx.ob("C06.h", "check_callee/cyclic-answer-of-the-callee-repair-is-not-discarded", "K5",
+               "check_callee inspects the Result of the callee's repair (Err(CyclicError) => Recompute) before it reads the callee's stored node info")
+    b = ctx.touch(prog.coroutine_of("Snapshot::check_callee"))
+    rep = b.calls_to(r"executor::Entry::<C>::repair_query_from_query_id$")
+    if len(rep) != 1:
+        ctx.fail(o, Site(b, 0, 0), "anchor missing: the recursive repair in check_callee (found %d)" % len(rep))
+        return
+    aw = df.await_of_call(b, rep[0])
+    if aw is None or aw.ready_edge is None:
+        ctx.fail(o, rep[0], "anchor missing: the await of the recursive repair")
+        return
+    o.sites = 1
+    # the value taken out of Poll::Ready on the ready edge
+    outs = []
+    for bi in b.reachable([aw.ready_edge[1]]):
+        for si, st in enumerate(b.blocks[bi]["stmts"]):
+            if st["k"] == "assign" and st["rv"]["k"] == "use":
+                pl = df.op_place(st["rv"]["op"])
+                if pl is not None and pl[0] == op_local(aw.poll.node["dest"] and {"cp": aw.poll.node["dest"]}) and any(e.startswith("d:Ready") for e in pl[1]):
+                    outs.append(Site(b, bi, si))
+    if not outs:
+        ctx.fail(o, rep[0], "anchor missing: the output of the awaited repair")
+        return
+    used = False
+    for a in outs:
+        l = a.node["lhs"][0]
+        if any(k == "arg" for k, s_, i in df.forward_uses(b, a)):
+            used = True
+        for sb in df.switches(b):
+            c = df.switch_cond(b, sb)
+            pl = getattr(c, "place", None)
+            if pl is not None and (pl[0] == l or any(x.kind == "unknown" for x in [])):
+                used = True
+            if c.kind == "disc" and pl is not None and any(getattr(x, "site", None) == a for x in df.origins_of_place(b, pl)):
+                used = True
+    if not used:
+        ctx.fail(o, rep[0], "check_callee discards the result of the callee's repair: a CyclicError (the callee is in flight and waits for this query) goes unnoticed, the callee's "
+                 "PREVIOUS node info is compared with the observation and the caller is verified clean on a ring that an input edit has just created")
+
+
 def run(ctx):
+    ctx.run_clause("C06.h", c06h)
     ctx.run_clause("C06.g", c06g)
     ctx.run_clause("C06.f", c06f)
     ctx.run_clause("C06.d", c06d)
